@@ -107,7 +107,7 @@ C["C08"] = dict(level="other",
  stubs=["zzMsgs", "funcs model", "zzBytesCodec (returns an error for a value of the wrong type, like GOGOPB/CODE/MSGP codecs)"],
  bounds={"frame length": "decoders: quick 0..4, thorough 0..6; client reader: 0..3 (thorough 4) with 8-byte read buffers", "burst": "2 (thorough 3) requests", "schedules": SCHED},
  outside=["the framing layer's own varint-overflow panic and allocation of a peer-announced length", "memory exhaustion", "TLS/ws handshakes", "poll-mode teardown"],
- runs={"quick": [run("C08dec"), run("C08big"), run("C08srv", labels=["panic", "probe-reply", "probe-answered-once"]), run("C08seq"), run("C08cli"), run("C08down"), run("C08down", P=1, gran=1), run("C02r", P=1, gran=1, labels=["panic"])],
+ runs={"quick": [run("C08dec"), run("C08big"), run("C08srv", labels=["panic", "probe-reply", "probe-answered-once"]), run("C08seq", params={"seq.N": 3}), run("C08cli"), run("C08down"), run("C08down", P=1, gran=1), run("C02r", P=1, gran=1, labels=["panic"])],
        "thorough": [run("C08dec", params={"c08.N": 6}, budget=1500), run("C08big"), run("C08seq", params={"seq.N": 3}, budget=1500), run("C08srv", labels=["panic", "probe-reply", "probe-answered-once"]), run("C08cli", params={"c08.N": 4}, budget=1500), run("C08down", params={"down.N": 3}), run("C08down", P=1, gran=1, params={"down.N": 3}, budget=2400), run("C02r", P=2, gran=1, labels=["panic"], budget=900)]})
 
 C["C09"] = dict(level="other",
@@ -147,7 +147,7 @@ C["C12"] = dict(level="other",
  stubs=["stub socket/listener", "zzMsgs", "funcs model", "zzBytesCodec"],
  bounds={"options menu": "3 network forms x 5 codec forms x 5 header-encoder forms x 3 buffer sizes", "server modes": "16 mode vectors"},
  outside=["equivalence across tcp/unix/http/ws/inproc and TLS: real sockets, crypto/tls, net/http, websocket framing cannot be encoded", "json/xml/msgp body codecs (reflection)"],
- runs={"quick": [run("C12opt"), run("SRV", labels=SRV_ALL)], "thorough": [run("C12opt"), run("SRV", params={"srv.N": 3, "srv.kinds": 3, "srv.arglens": 1}, labels=SRV_ALL, budget=1500)]})
+ runs={"quick": [run("C12opt"), run("SRV", labels=SRV_ALL), run("SRVw", P=1, gran=3)], "thorough": [run("C12opt"), run("SRV", params={"srv.N": 3, "srv.kinds": 3, "srv.arglens": 1}, labels=SRV_ALL, budget=1500), run("SRVw", P=1, gran=3, budget=1500)]})
 
 TR_C13 = ["open-conns-within-MaxConnsPerHost", "idle-conns-within-MaxIdleConnsPerHost"]
 TR_C14 = ["sent-only-to-requested-address", "reply-ok", "failure-is-shutdown", "recovers-after-one-failure-per-pooled-conn", "down-fails-with-dial-or-shutdown"]
